@@ -191,6 +191,129 @@ def check_addresses(mido, acc, ports):
                           {'kind': 'address-bad', 'text': bad})
 
 
+def check_burst(mido, tshim, acc, n, how):
+    """n complete messages written at once, then the peer disconnects:
+    every one must still be handed out (internal batch limits sit at such
+    sizes)."""
+    a, b = socket.socketpair()
+    acc.evals += 1
+    acc.nontrivial += 1
+    case = {'kind': 'burst', 'n': n, 'how': how}
+    sleeps = [0]
+
+    def on_sleep(sec):
+        sleeps[0] += 1
+        if sleeps[0] > 40:
+            raise Horizon()
+    tshim.on_sleep = on_sleep
+    port = None
+    try:
+        port = mido.sockets.SocketPort('peer', 1, conn=a)
+        data = b''.join(bytes(mido.Message('note_on', channel=j % 16,
+                                           note=j % 128,
+                                           velocity=1 + (j // 128) % 100)
+                              .bytes()) for j in range(n))
+        b.sendall(data)
+        b.close()
+        got = []
+        if how == 'iterate':
+            got = list(port)
+        elif how == 'poll':
+            while True:
+                m = port.poll()
+                if m is None:
+                    break
+                got.append(m)
+        else:
+            got = list(port.iter_pending()) + list(port.iter_pending())
+        if sigs(got) != sigs(mido.parse_all(list(data))):
+            acc.violation(f'burst/{how}',
+                          f'{n} messages then disconnect, drained with {how}: '
+                          f'received {len(got)}', case)
+    except Horizon:
+        acc.violation(f'burst/{how}/never-ended', f'{n} messages', case)
+    except Exception as e:
+        acc.violation(f'burst/{how}/raised/{type(e).__name__}', f'{e!r}', case)
+    finally:
+        tshim.on_sleep = None
+        for s in (a, b):
+            try:
+                s.close()
+            except OSError:
+                pass
+
+
+def check_server_burst(mido, tshim, acc, counts):
+    """Clients send a burst and disconnect before the server looks."""
+    acc.evals += 1
+    acc.nontrivial += 1
+    case = {'kind': 'server-burst', 'counts': list(counts)}
+    try:
+        server = mido.sockets.PortServer('127.0.0.1', 0)
+    except OSError:
+        acc.count('server_not_run_no_loopback')
+        return
+    sleeps = [0]
+
+    def on_sleep(sec):
+        sleeps[0] += 1
+        _time.sleep(0.001)
+        if sleeps[0] > 4000:
+            raise Horizon()
+    tshim.on_sleep = on_sleep
+    try:
+        port = server._socket.getsockname()[1]
+        want = []
+        for c, n in enumerate(counts):
+            cl = mido.sockets.connect('127.0.0.1', port)
+            for k in range(n):
+                cl.send(mido.Message('note_on', channel=c, note=k % 128,
+                                     velocity=1 + (k // 128) % 100))
+                want.append((c, k % 128, 1 + (k // 128) % 100))
+            # make sure the server has accepted this client before the next
+            # connects (backlog is 1), then disconnect
+            deadline = _time.time() + 5
+            got_first = []
+            cl.close()
+            _time.sleep(0.05)
+            m = server.poll()
+            if m is not None:
+                got_first.append(m)
+            want_pending = got_first
+            if c == 0:
+                got = []
+            got += [(x.channel, x.note, x.velocity) for x in got_first]
+        deadline = _time.time() + 15
+        idle = 0
+        while len(got) < len(want) and _time.time() < deadline and idle < 200:
+            m = server.poll()
+            if m is None:
+                idle += 1
+                _time.sleep(0.002)
+            else:
+                idle = 0
+                got.append((m.channel, m.note, m.velocity))
+        ok = sorted(got) == sorted(want)
+        for c in range(len(counts)):
+            if [g for g in got if g[0] == c] != [w for w in want if w[0] == c]:
+                ok = False
+        if not ok:
+            acc.violation('server/burst-then-disconnect',
+                          f'clients sent {list(counts)} messages and '
+                          f'disconnected: the server handed out {len(got)} of '
+                          f'{len(want)}', case)
+    except Horizon:
+        acc.violation('server/burst-never-returned', f'{list(counts)}', case)
+    except Exception as e:
+        acc.violation(f'server/burst-raised/{type(e).__name__}', f'{e!r}', case)
+    finally:
+        tshim.on_sleep = None
+        try:
+            server.close()
+        except Exception:
+            pass
+
+
 def check_server(mido, tshim, acc, nclients, nmsgs, mode):
     """PortServer over loopback TCP: every message of every client exactly
     once, without blocking forever."""
@@ -325,8 +448,16 @@ def worker(shard):
                     if mode == 'receive' and nclients * nmsgs == 0:
                         continue
                     check_server(mido, tshim, acc, nclients, nmsgs, mode)
-        acc.sample({'server': 'loopback TCP, 0-2 clients x 0-2 messages'},
-                   cap=1)
+        for counts in ((65,), (200,), (5, 300, 7), (64,), (129, 1)):
+            check_server_burst(mido, tshim, acc, counts)
+        acc.sample({'server': 'loopback TCP, 0-2 clients x 0-2 messages; '
+                    'bursts of 64..300 then disconnect'}, cap=1)
+    elif kind == 'burst':
+        for n in (1, 63, 64, 65, 100, 128, 129, 255, 256, 257, 341, 342, 1000,
+                  1366):
+            for how in ('iterate', 'poll', 'iter_pending'):
+                check_burst(mido, tshim, acc, n, how)
+        acc.sample({'burst_sizes': [63, 64, 65, 1000]}, cap=1)
     return acc
 
 
@@ -349,6 +480,7 @@ def run():
          65534, 65535] + list(range(1, 65536, 257))
     shards.append(('misc', ports))
     shards.append(('server',))
+    shards.append(('burst',))
     run_shards(worker, shards, rep)
     rep.coverage['exhaustive'] = True
     rep.coverage['rule'] = (
@@ -390,6 +522,10 @@ def check_case(case):
                 case['close'], acc, 'socketpair')
     elif k == 'close':
         check_close_seen_by_peer(mido, acc)
+    elif k == 'burst':
+        check_burst(mido, tshim, acc, case['n'], case['how'])
+    elif k == 'server-burst':
+        check_server_burst(mido, tshim, acc, tuple(case['counts']))
     elif k.startswith('address'):
         check_addresses(mido, acc, [case.get('port', 8080)])
     else:
